@@ -14,6 +14,11 @@ Module level (anything else is refused; a name bound twice at module level is re
   NAME = {...}                    for schemdraw_serializers, schemdraw_deserializers (ignored: drawing objects),
                                   simple_circuit_element_types
   def f(...)                      undecorated; translated, pinned or ignored as listed below
+  def _h(p, ...)                  private helper (one leading underscore, plain positional parameters without defaults): never
+                                  translated on its own, inlined where undictify_element calls it (see below); a helper that is
+                                  not called from there is refused
+  _NAME = ('a', 'b', ...)         private tuple of string literals (immutable): only usable as `for x in _NAME`; refused if unused
+  (the builtins type, dict, complex, setattr, getattr, hasattr, KeyError and the builtin types may not be rebound)
 Ignored functions (third-party drawing state, not part of the symbol model): schemdraw_object_properties, listify_point,
   dictify_segment, dictify_segment_text, dictify_segment_circle, dictify_transform.
 Pinned function (must be the reference text up to renaming of locals): deserialize_schemdraw_elements.
@@ -40,6 +45,25 @@ undictify_element(element_dict, circuit_dict)  statements
   return E
   <doc>  = element_dict | <doc>['k'] | <doc>.get('k', CONST)       <dict of circuit_dict> = circuit_dict[<doc>]
   <test> = <doc> in circuit_dict[.keys()] | 'k' in circuit_dict[<doc>] | 'k' in K
+  additions (robh; each is reduced to the statements above, so that the refactored and the original code generate the same term):
+  <test> = ... | not <test> | a not in c          the test without the negation, with the two branches exchanged
+  if <test>: <updates> else: <updates>            -> let* K' := if t then (..; Ok K1) else (..; Ok K2) in; an empty branch is Ok K
+  V = <doc> | V = circuit_dict[<doc>]             read-only local (while the element is not yet built): V is a new name that hides
+                                                  no module-level name / builtin; only K itself may be updated (`V.update(..)`,
+                                                  `V['k'] = ..` are refused, as is a second name for K), so V keeps denoting the
+                                                  value read; a local bound inside an `if` is not visible after it
+  _h(a, ...)  as a statement                      _h a private module-level helper: the arguments are evaluated left to right (a
+                                                  <doc>, circuit_dict, circuit_dict[<doc>], or the name K itself, at most once),
+                                                  then the body of _h is translated in place with the parameters bound to these
+                                                  values (parameters hide no module-level name); the parameter that received K
+                                                  stands for K (same object: its updates are K's), all others are read-only;
+                                                  body = the statements above (updates, ifs, locals, helper calls, for); no
+                                                  recursion, nested def / lambda / global / yield; the value of the call is unused
+  if <test>: return   (bare, first level of a helper body)   the REMAINING statements of the helper are the else branch
+                                                  (falling off the end returns None as the bare return does)
+  for x in _NAME | ('a', ..) | ['a', ..]: <body>  unrolled: <body> once per literal, in order, x replaced by the literal; x is a new
+                                                  name, not assigned in the body; no break / continue / return / else
+  setattr(E, 'a', V)                              E.a = V   ('a' a literal identifier, after unrolling)
 undictify_schematic(d)  S = Schematic(); CD = {c['k']: c['k2'] for c in <doc>};
                         S.elements.extend([undictify_element(e, CD) for e in <doc>]); return S
 === SimpleCircuit/Elements.py ===  for every top-level class: the string returned by its `type` property (a literal), if any.
@@ -51,6 +75,12 @@ transform_to_schematic_element   element['type'] (MissingArgument on KeyError), 
                    (UnknownCircuitElement on KeyError)
 apply_direction_and_length(element, direction=CONST, length=CONST, unit=CONST)   if/elif chain
                    direction == 'd': element.M(length*unit); return element
+                   or the loop form (robh)  for x in _NAME | ('d', ..): if direction == x: getattr(element, x)(length*unit); break
+                   which IS the if/elif chain over the literals in order (first hit runs its call and leaves the loop;
+                   getattr(E, 'm') with a literal identifier is E.m) and is rewritten into it before the recognition above
+module level (robh): private tuples of string literals `_NAME = ('a', ..)` (each must be iterated by apply_direction_and_length)
+                   and private functions `_h` (each must be inlined into fill by gen_annotation, see there); getattr / setattr /
+                   print / str may not be rebound
 apply_position(element, origin_element=None)   None -> element, else element.at(origin_element.ANCHOR)
 get_placed_element(schematic, label=None)      None -> None, else schematic.elements[[se.name for se in
                    schematic.elements].index(label)]
@@ -84,6 +114,11 @@ TRANSLATED_FUNCS = {'serialize_schemdraw_element', 'dictify_element', 'schematic
                     'undictify_element', 'undictify_schematic'}
 TRANSLATED_TABLES = {'schemdraw_serializers', 'simple_circuit_element_types'}
 BUILTIN_TYPES = ('str', 'int', 'float', 'bool', 'dict', 'list', 'tuple', 'complex')
+RESERVED_BUILTINS = ('type', 'dict', 'complex', 'setattr', 'getattr', 'hasattr', 'KeyError')
+
+
+def is_private(name):
+    return name.startswith('_') and not name.startswith('__')
 
 PINNED = {'deserialize_schemdraw_elements': '''
 def deserialize_schemdraw_elements(element):
@@ -243,6 +278,7 @@ class Module:
         self.path = os.path.join(src, *DUMP_LOAD)
         self.tree = parse(self.path)
         self.imports, self.typed_dicts, self.funcs, self.tables, self.partials = {}, {}, {}, {}, []
+        self.helpers, self.consts = {}, {}
         bound = []
         p = self.path
         for st in self.tree.body:
@@ -264,13 +300,18 @@ class Module:
             elif isinstance(st, ast.FunctionDef):
                 if st.decorator_list:
                     raise Unsupported(f'{where(st, p)}: decorated function {st.name}')
-                self.funcs[st.name] = st
+                if is_private(st.name) and st.name not in TRANSLATED_FUNCS and st.name not in PINNED and st.name not in IGNORED_FUNCS:
+                    self.helpers[st.name] = st          # inlined at its call sites, must be used
+                else:
+                    self.funcs[st.name] = st
                 bound.append(st.name)
             elif isinstance(st, ast.Assign) and len(st.targets) == 1 and isinstance(st.targets[0], ast.Name):
                 name, v = st.targets[0].id, st.value
                 bound.append(name)
                 if isinstance(v, ast.Dict):
                     self.tables[name] = v
+                elif is_private(name) and isinstance(v, ast.Tuple) and v.elts and all(const_str(e) is not None for e in v.elts):
+                    self.consts[name] = [e.value for e in v.elts]   # immutable: only `for x in NAME` may use it
                 elif isinstance(v, ast.Call) and dotted(v.func) == 'TypeVar':
                     pass
                 elif isinstance(v, ast.Call) and dotted(v.func) == 'functools.partial':
@@ -285,7 +326,8 @@ class Module:
         dup = sorted({b for b in bound if bound.count(b) > 1} - {'schemdraw'})
         if dup:
             raise Unsupported(f'{p}: names bound more than once at module level: {dup}')
-        for b in BUILTIN_TYPES + ('type', 'dict', 'complex'):
+        self.bound = set(bound)
+        for b in BUILTIN_TYPES + RESERVED_BUILTINS:
             if b in bound:
                 raise Unsupported(f'{p}: builtin {b} rebound at module level')
         for name in self.funcs:
@@ -408,6 +450,7 @@ class Fn:
         self.gen, self.f, self.path, self.K = gen, f, gen.m.path, gen.K
         self.n = 0
         self.used = set()
+        self.stack = []
 
     def fresh(self, base='x'):
         if base == 'x':
@@ -564,12 +607,13 @@ class Fn:
         return f'(flag_comp [{flags}] {cont} {self.const(n.value)})', 'kwargs'
 
     # ---- statements that update the keyword dictionary; returns True if handled
-    def kw_update(self, st, b):
+    def kw_update(self, st, b, mut):
+        """mut: the name of THE keyword dictionary in the current scope; nothing else may be updated"""
         K = self.K
         if isinstance(st, ast.Expr) and isinstance(st.value, ast.Call) and isinstance(st.value.func, ast.Attribute) and \
                 st.value.func.attr == 'update' and isinstance(st.value.func.value, ast.Name):
             var = st.value.func.value.id
-            if b.env.get(var, (None, None))[1] != 'kwargs' or len(st.value.args) != 1 or st.value.keywords:
+            if var != mut or b.env.get(var, (None, None))[1] != 'kwargs' or len(st.value.args) != 1 or st.value.keywords:
                 raise self.bad(st, '.update on something that is not the keyword dictionary')
             a = st.value.args[0]
             cur = b.env[var][0]
@@ -596,6 +640,8 @@ class Fn:
         if isinstance(st, ast.Assign) and len(st.targets) == 1 and isinstance(st.targets[0], ast.Subscript) and \
                 isinstance(st.targets[0].value, ast.Name) and b.env.get(st.targets[0].value.id, (None, None))[1] == 'kwargs':
             var = st.targets[0].value.id
+            if var != mut:
+                raise self.bad(st, 'item assignment to something that is not the keyword dictionary')
             ks = const_str(st.targets[0].slice)
             if ks is None:
                 raise self.bad(st, 'item assignment with a non-literal key')
@@ -606,28 +652,215 @@ class Fn:
             return True
         return False
 
-    def kw_if(self, st, b, var):
-        """if <test>: <updates of var / nested ifs>   ->   let* var' := if test then (...; Ok var'') else Ok var in"""
-        if st.orelse:
-            raise self.bad(st, '`if` with an else branch')
-        t, tt = self.ex(st.test, b)
-        if tt != 'bool':
-            raise self.bad(st.test, 'test outside the subset')
-        c = b.child()
-        for s in st.body:
-            if self.kw_update(s, c):
-                continue
-            if isinstance(s, ast.If):
-                self.kw_if(s, c, var)
-                continue
-            raise self.bad(s, 'statement outside the subset inside `if`')
-        for name, (atom, ty) in c.env.items():
-            if name != var and b.env.get(name) != (atom, ty):
-                raise self.bad(st, f'`if` rebinds {name}')
-        inner = c.render(f'Ok {c.env[var][0]}', 4)
+    # ---- tests: returns (atom, polarity); `not T` / `a not in c` are the test T / `a in c` with the branches swapped
+    def test(self, n, b):
+        if isinstance(n, ast.UnaryOp) and isinstance(n.op, ast.Not):
+            a, pos = self.test(n.operand, b)
+            return a, not pos
+        if isinstance(n, ast.Compare) and len(n.ops) == 1 and isinstance(n.ops[0], ast.NotIn):
+            pos = ast.copy_location(ast.Compare(left=n.left, ops=[ast.In()], comparators=n.comparators), n)
+            a, t = self.contains(pos, b)
+            return a, False
+        a, t = self.ex(n, b)
+        if t != 'bool':
+            raise self.bad(n, 'test outside the subset')
+        return a, True
+
+    def cond(self, node, test, then, orelse, b, ctx):
+        """if <test>: <then> else: <orelse>   ->   let* K1 := if test then (...; Ok K2) else (...; Ok K3) in
+        (an empty branch is `Ok K`); the branches may only update the keyword dictionary K"""
+        var = ctx.kwvar
+        if var is None:
+            raise self.bad(node, '`if` where no keyword dictionary can be updated')
+        t, pos = self.test(test, b)
+        if not pos:
+            then, orelse = orelse, then
+
+        def branch(stmts, indent):
+            if not stmts:
+                return None
+            c = b.child()
+            self.run(stmts, c, Ctx(kwvar=var, kind='branch'))
+            for name, (atom, ty) in c.env.items():
+                if name != var and name in b.env and b.env[name] != (atom, ty):
+                    raise self.bad(node, f'`if` rebinds {name}')
+            return c.render(f'Ok {c.env[var][0]}', indent)
+        cur = b.env[var][0]
+        th, el = branch(then, 4), branch(orelse, 4)
         n = self.fresh(var)
-        b.lines.append(f'let* {n} :=\n  if {t} then\n{inner}\n  else Ok {b.env[var][0]} in')
+        th = f'\n{th}\n ' if th is not None else f' Ok {cur}'
+        el = f'\n{el}' if el is not None else f' Ok {cur}'
+        b.lines.append(f'let* {n} :=\n  if {t} then{th} else{el} in')
         b.env[var] = (n, 'kwargs')
+
+    # ---- statement lists of undictify_element, of the branches of its ifs and of the helpers inlined into it
+    def run(self, stmts, b, ctx):
+        for i, st in enumerate(stmts):
+            if ctx.kind == 'helper' and isinstance(st, ast.If) and not st.orelse and len(st.body) == 1 and \
+                    isinstance(st.body[0], ast.Return) and st.body[0].value is None:
+                # `if T: return` at the top of a helper whose value is not used: the remaining statements are the else branch
+                # (falling off the end returns None like the bare return does)
+                self.cond(st, st.test, [], stmts[i + 1:], b, ctx)
+                return
+            self.stmt(st, b, ctx)
+
+    def local_name(self, node, name, env):
+        if name in env:
+            raise self.bad(node, f'{name} rebound')
+        if name in self.gen.m.bound or name in BUILTIN_TYPES + RESERVED_BUILTINS:
+            raise self.bad(node, f'local name {name} hides a module-level name / builtin')
+
+    def stmt(self, st, b, ctx):
+        top = ctx.kind == 'top'
+        if top and ctx.kwvar is None:
+            # K = deserialize_schemdraw_elements(<doc>)
+            if isinstance(st, ast.Assign) and len(st.targets) == 1 and isinstance(st.targets[0], ast.Name):
+                a, t = self.ex(st.value, b)
+                if t != 'kwargs':
+                    raise self.bad(st, 'first assignment does not create the keyword dictionary')
+                if st.targets[0].id in b.env:
+                    raise self.bad(st, 'parameter rebound')
+                ctx.kwvar = st.targets[0].id
+                b.env[ctx.kwvar] = (a, 'kwargs')
+                return
+            raise self.bad(st, 'statement outside the subset')
+        if isinstance(st, ast.For):
+            self.unroll(st, b, ctx)
+            return
+        if isinstance(st, ast.Expr) and isinstance(st.value, ast.Call) and isinstance(st.value.func, ast.Name) and \
+                st.value.func.id in self.gen.m.helpers:
+            self.inline(st.value, b, ctx)
+            return
+        if ctx.elvar is None:
+            if self.kw_update(st, b, ctx.kwvar):
+                return
+            if isinstance(st, ast.If):
+                self.cond(st, st.test, st.body, st.orelse, b, ctx)
+                return
+            if isinstance(st, ast.Assign) and len(st.targets) == 1 and isinstance(st.targets[0], ast.Name):
+                # V = <doc> | circuit_dict[<doc>]: a read-only local (never the keyword dictionary itself)
+                self.local_name(st, st.targets[0].id, b.env)
+                a, t = self.ex(st.value, b)
+                if not (t == 'jv' or (t == 'kwargs' and isinstance(st.value, ast.Subscript))):
+                    raise self.bad(st, 'local assignment of something that is not a document / circuit_dict[<doc>]')
+                b.env[st.targets[0].id] = (a, t)
+                return
+            if top and isinstance(st, ast.Try):
+                ctx.elvar = self.gen._try_ctor(self, st, b)
+                return
+            raise self.bad(st, 'statement outside the subset')
+        elvar = ctx.elvar
+        if isinstance(st, ast.Expr) and isinstance(st.value, ast.Call) and isinstance(st.value.func, ast.Name) and \
+                st.value.func.id == 'setattr':
+            # setattr(E, 'a', V) is E.a = V (a literal identifier; not in a class body, hence no name mangling)
+            c = st.value
+            if not (len(c.args) == 3 and not c.keywords and isinstance(c.args[0], ast.Name) and const_str(c.args[1]) is not None
+                    and c.args[1].value.isidentifier()):
+                raise self.bad(st, 'setattr outside the subset setattr(E, \'attribute\', V)')
+            st = ast.copy_location(ast.Assign(targets=[ast.copy_location(
+                ast.Attribute(value=c.args[0], attr=c.args[1].value, ctx=ast.Store()), c)], value=c.args[2]), st)
+        if isinstance(st, ast.Assign) and len(st.targets) == 1 and isinstance(st.targets[0], ast.Attribute) \
+                and isinstance(st.targets[0].value, ast.Name) and st.targets[0].value.id == elvar:
+            attr = st.targets[0].attr
+            v = st.value
+            if not (isinstance(v, ast.Call) and isinstance(v.func, ast.Name) and v.func.id == 'deserialize_schemdraw_elements'
+                    and len(v.args) == 1 and not v.keywords):
+                raise self.bad(st, 'attribute is not restored through deserialize_schemdraw_elements')
+            if attr in DRAWING_STATE:
+                src_ = v.args[0]
+                if not (isinstance(src_, ast.Subscript) and const_str(src_.slice) is not None):
+                    raise self.bad(st, 'restored attribute is not read from a literal key')
+                self.ex(src_.value, b)          # the enclosing read (may raise KeyError) is kept
+                self.gen.restored_state.append((attr, const_str(src_.slice), ast.unparse(src_.value)))
+                return
+            if attr == 'absanchors':
+                a, t = self.ex(v.args[0], b)
+                if t != 'jv':
+                    raise self.bad(st, 'absanchors restored from a non-document')
+                n = b.let_res(f'set_absanchors {b.env[elvar][0]} {a}', elvar)
+                b.env[elvar] = (n, 'symbol')
+                return
+            raise self.bad(st, f'attribute {attr} is outside the symbol model')
+        raise self.bad(st, 'statement outside the subset')
+
+    def unroll(self, st, b, ctx):
+        """for x in NAME | ('a', ...): <body>   with NAME a module-level tuple of string literals: the body once per literal, in
+        order, with x replaced by the literal (x is not assigned in the body, no break / continue / return / else)"""
+        if st.orelse or not isinstance(st.target, ast.Name):
+            raise self.bad(st, 'for loop outside the subset `for x in <tuple of string literals>:`')
+        if isinstance(st.iter, ast.Name) and st.iter.id in self.gen.m.consts and st.iter.id not in b.env:
+            values = self.gen.m.consts[st.iter.id]
+            self.gen.used_consts.add(st.iter.id)
+        elif isinstance(st.iter, (ast.Tuple, ast.List)) and st.iter.elts and all(const_str(e) is not None for e in st.iter.elts):
+            values = [e.value for e in st.iter.elts]
+        else:
+            raise self.bad(st, 'for loop over something that is not a tuple of string literals')
+        x = st.target.id
+        self.local_name(st, x, b.env)
+        for s in st.body:
+            for n in ast.walk(s):
+                if (isinstance(n, ast.Name) and n.id == x and not isinstance(n.ctx, ast.Load)) or \
+                        (isinstance(n, ast.arg) and n.arg == x) or isinstance(n, (ast.Break, ast.Continue, ast.Return)):
+                    raise self.bad(st, f'for loop body rebinds {x} or leaves the loop')
+
+        class Subst(ast.NodeTransformer):
+            def __init__(self, value):
+                self.value = value
+
+            def visit_Name(self, n):
+                return ast.copy_location(ast.Constant(value=self.value), n) if n.id == x else n
+        for value in values:
+            self.run([Subst(value).visit(copy.deepcopy(s)) for s in st.body], b, ctx)
+
+    def inline(self, call, b, ctx):
+        """H(a, ...) as a statement, H a module-level private helper `def _h(p, ...)`: the arguments are evaluated in order, the
+        body is translated in place with the parameters bound to them; a parameter that receives the keyword dictionary aliases it
+        (its updates are the caller's), every other dictionary is read-only"""
+        name = call.func.id
+        h = self.gen.m.helpers[name]
+        if name in b.env:
+            raise self.bad(call, 'helper name hidden by a local')
+        if name in self.stack:
+            raise self.bad(call, 'recursive helper')
+        if call.keywords or any(isinstance(a, ast.Starred) for a in call.args):
+            raise self.bad(call, 'helper call with keywords / *')
+        ps = plain_params(h, self.path, len(call.args))
+        if len(set(ps)) != len(ps):
+            raise self.bad(call, 'helper with duplicate parameters')
+        env, mut = {}, None
+        for p_, a in zip(ps, call.args):
+            self.local_name(h, p_, {})
+            if isinstance(a, ast.Name) and ctx.kwvar is not None and a.id == ctx.kwvar:
+                if mut is not None:
+                    raise self.bad(call, 'the keyword dictionary is passed twice')
+                mut = p_
+                env[p_] = b.env[a.id]
+            else:
+                at, ty = self.ex(a, b)
+                if ty not in ('jv', 'cdict') and not (ty == 'kwargs' and isinstance(a, ast.Subscript)):
+                    raise self.bad(call, 'helper argument is not a document / the keyword dictionary / circuit_dict[..]')
+                env[p_] = (at, ty)
+        for s in ast.walk(h):
+            if isinstance(s, (ast.Global, ast.Nonlocal, ast.Yield, ast.YieldFrom, ast.Await, ast.FunctionDef, ast.Lambda)) and s is not h:
+                raise self.bad(s, 'helper body outside the subset')
+        saved = b.env
+        b.env = env
+        self.stack.append(name)
+        self.gen.used_helpers.add(name)
+        self.run(body_without_docstring(h), b, Ctx(kwvar=mut, kind='helper'))
+        self.stack.pop()
+        new = b.env[mut] if mut is not None else None
+        b.env = saved
+        if mut is not None:
+            b.env[ctx.kwvar] = new
+
+
+class Ctx:
+    """where a statement is translated: kind 'top' (body of undictify_element), 'branch' (of an if) or 'helper' (top level of an
+    inlined helper); kwvar = the name of THE keyword dictionary in this scope (None: not available), elvar = the element"""
+
+    def __init__(self, kwvar=None, elvar=None, kind='top'):
+        self.kwvar, self.elvar, self.kind = kwvar, elvar, kind
 
 
 class Gen:
@@ -638,6 +871,7 @@ class Gen:
         self.ctypes = class_types(src)
         self.fun_tables = {'simple_circuit_element_types': 'g_simple_circuit_element_types'}
         self.saved_state, self.restored_state = [], []
+        self.used_helpers, self.used_consts = set(), set()
 
     def cls(self, name, node):
         if name in KNOWN_CLASSES:
@@ -830,49 +1064,13 @@ class Gen:
         body = body_without_docstring(f)
         if not body or not isinstance(body[-1], ast.Return):
             raise Unsupported(f'{where(f, m.path)}: undictify_element does not end in a return')
-        kwvar = elvar = None
-        for st in body[:-1]:
-            # K = deserialize_schemdraw_elements(<doc>)
-            if isinstance(st, ast.Assign) and len(st.targets) == 1 and isinstance(st.targets[0], ast.Name) and kwvar is None:
-                a, t = fn.ex(st.value, b)
-                if t != 'kwargs':
-                    raise fn.bad(st, 'first assignment does not create the keyword dictionary')
-                kwvar = st.targets[0].id
-                if kwvar in b.env:
-                    raise fn.bad(st, 'parameter rebound')
-                b.env[kwvar] = (a, 'kwargs')
-                continue
-            if kwvar is not None and elvar is None and fn.kw_update(st, b):
-                continue
-            if kwvar is not None and elvar is None and isinstance(st, ast.If):
-                fn.kw_if(st, b, kwvar)
-                continue
-            if isinstance(st, ast.Try) and kwvar is not None and elvar is None:
-                elvar = self._try_ctor(fn, st, b)
-                continue
-            if elvar is not None and isinstance(st, ast.Assign) and len(st.targets) == 1 and isinstance(st.targets[0], ast.Attribute) \
-                    and isinstance(st.targets[0].value, ast.Name) and st.targets[0].value.id == elvar:
-                attr = st.targets[0].attr
-                v = st.value
-                if not (isinstance(v, ast.Call) and isinstance(v.func, ast.Name) and v.func.id == 'deserialize_schemdraw_elements'
-                        and len(v.args) == 1 and not v.keywords):
-                    raise fn.bad(st, 'attribute is not restored through deserialize_schemdraw_elements')
-                if attr in DRAWING_STATE:
-                    src_ = v.args[0]
-                    if not (isinstance(src_, ast.Subscript) and const_str(src_.slice) is not None):
-                        raise fn.bad(st, 'restored attribute is not read from a literal key')
-                    fn.ex(src_.value, b)          # the enclosing read (may raise KeyError) is kept
-                    self.restored_state.append((attr, const_str(src_.slice), ast.unparse(src_.value)))
-                    continue
-                if attr == 'absanchors':
-                    a, t = fn.ex(v.args[0], b)
-                    if t != 'jv':
-                        raise fn.bad(st, 'absanchors restored from a non-document')
-                    n = b.let_res(f'set_absanchors {b.env[elvar][0]} {a}', elvar)
-                    b.env[elvar] = (n, 'symbol')
-                    continue
-                raise fn.bad(st, f'attribute {attr} is outside the symbol model')
-            raise fn.bad(st, 'statement outside the subset')
+        ctx = Ctx()
+        fn.run(body[:-1], b, ctx)
+        elvar = ctx.elvar
+        for kind, have, used in (('helper', m.helpers, self.used_helpers), ('constant', m.consts, self.used_consts)):
+            for name in have:
+                if name not in used:
+                    raise Unsupported(f'{m.path}: module-level {kind} {name} is not used by undictify_element')
         r = body[-1].value
         if not (isinstance(r, ast.Name) and r.id == elvar):
             raise fn.bad(body[-1], 'does not return the constructed element')
@@ -1117,10 +1315,14 @@ def create_schematic(circuit_data, circuit_ax=None):
 
 
 def schematic_module(src):
-    """module-level check of schematic.py shared with gen_annotation: returns (path, tree, funcs, tables, classes)"""
+    """module-level check of schematic.py shared with gen_annotation: returns (path, tree, funcs, tables, classes, extra) with
+    extra = {'helpers': private functions `_h` (inlined by gen_annotation into fill; every one must be used there),
+             'consts': private tuples of string literals `_c = ('a', ...)` (iterated by apply_direction_and_length; every one must
+                       be used there)}"""
     path = os.path.join(src, *SCHEMATIC)
     tree = parse(path)
     funcs, tables, clss, bound, imports = {}, {}, {}, [], {}
+    helpers, consts = {}, {}
     for st in tree.body:
         if isinstance(st, ast.Import):
             for a in st.names:
@@ -1135,11 +1337,18 @@ def schematic_module(src):
         elif isinstance(st, ast.FunctionDef):
             if st.decorator_list:
                 raise Unsupported(f'{where(st, path)}: decorated function {st.name}')
-            funcs[st.name] = st
+            if is_private(st.name):
+                helpers[st.name] = st
+            else:
+                funcs[st.name] = st
             bound.append(st.name)
         elif isinstance(st, ast.ClassDef):
             clss[st.name] = st
             bound.append(st.name)
+        elif isinstance(st, ast.Assign) and len(st.targets) == 1 and isinstance(st.targets[0], ast.Name) and is_private(st.targets[0].id) \
+                and isinstance(st.value, ast.Tuple) and st.value.elts and all(const_str(e) is not None for e in st.value.elts):
+            consts[st.targets[0].id] = [e.value for e in st.value.elts]
+            bound.append(st.targets[0].id)
         elif isinstance(st, ast.Assign) and len(st.targets) == 1 and isinstance(st.targets[0], ast.Name) and isinstance(st.value, ast.Dict):
             tables[st.targets[0].id] = st.value
             bound.append(st.targets[0].id)
@@ -1148,6 +1357,9 @@ def schematic_module(src):
     dup = sorted({b for b in bound if bound.count(b) > 1})
     if dup:
         raise Unsupported(f'{path}: names bound more than once at module level: {dup}')
+    for b in ('getattr', 'setattr', 'print', 'str'):
+        if b in bound:
+            raise Unsupported(f'{path}: builtin {b} rebound at module level')
     for kind, d, allowed in (('function', funcs, SCHEMATIC_FUNCS), ('class', clss, {'SolutionDefinition'}),
                              ('dict literal', tables, {'solutions', 'element_handlers'})):
         for name in d:
@@ -1162,7 +1374,7 @@ def schematic_module(src):
     for k, v in exp.items():
         if imports.get(k) != v:
             raise Unsupported(f'{path}: {k} is not imported from {v} (found {imports.get(k)})')
-    return path, tree, funcs, tables, clss
+    return path, tree, funcs, tables, clss, {'helpers': helpers, 'consts': consts}
 
 
 def need(d, name, path, what='function'):
@@ -1186,9 +1398,60 @@ def lit(n, g, path):
     raise Unsupported(f'{where(n, path)}: default value outside the subset (str, int, bool, None): {ast.unparse(n)}')
 
 
+def unrolled_dispatch(body, consts, params, f, path):
+    """for x in NAME | ('a', ...):                          if <test>[x := 'a']: <call>[x := 'a']
+           if <test>: <call>; break              ->         elif <test>[x := 'b']: <call>[x := 'b'] ...
+    NAME a module-level private tuple of string literals; the first iteration whose test holds runs its call and leaves the loop,
+    which is the if/elif chain over the literals in order; getattr(E, 'a') with a literal identifier is E.a.
+    Returns (body, names of the constants used); a body of another shape is returned unchanged."""
+    if not (body and isinstance(body[0], ast.For)):
+        return body, set()
+    lp = body[0]
+    used = set()
+    if isinstance(lp.iter, ast.Name) and lp.iter.id in consts and lp.iter.id not in params:
+        values = consts[lp.iter.id]
+        used.add(lp.iter.id)
+    elif isinstance(lp.iter, ast.Tuple) and lp.iter.elts and all(const_str(e) is not None for e in lp.iter.elts):
+        values = [e.value for e in lp.iter.elts]
+    else:
+        raise Unsupported(f'{where(lp, path)}: {f.name}: loop over something that is not a tuple of string literals')
+    ok = isinstance(lp.target, ast.Name) and lp.target.id not in params and not lp.orelse and len(lp.body) == 1 and \
+        isinstance(lp.body[0], ast.If) and not lp.body[0].orelse and len(lp.body[0].body) == 2 and \
+        isinstance(lp.body[0].body[0], ast.Expr) and isinstance(lp.body[0].body[1], ast.Break)
+    if ok:
+        x = lp.target.id
+        ok = not any((isinstance(n, ast.Name) and n.id == x and not isinstance(n.ctx, ast.Load)) or (isinstance(n, ast.arg) and n.arg == x)
+                     or isinstance(n, (ast.NamedExpr, ast.Lambda, ast.ListComp, ast.SetComp, ast.DictComp, ast.GeneratorExp))
+                     for n in ast.walk(lp.body[0]))
+        ok = ok and not any(isinstance(n, ast.Name) and n.id == x for s_ in body[1:] for n in ast.walk(s_))
+    if not ok:
+        raise Unsupported(f'{where(lp, path)}: {f.name}: loop is not `for x in <literals>: if <test>: <call>; break`')
+
+    class Subst(ast.NodeTransformer):
+        def __init__(self, value):
+            self.value = value
+
+        def visit_Name(self, n):
+            return ast.copy_location(ast.Constant(value=self.value), n) if n.id == x else n
+
+        def visit_Call(self, n):
+            self.generic_visit(n)
+            if isinstance(n.func, ast.Name) and n.func.id == 'getattr' and len(n.args) == 2 and not n.keywords and \
+                    const_str(n.args[1]) is not None and n.args[1].value.isidentifier():
+                return ast.copy_location(ast.Attribute(value=n.args[0], attr=n.args[1].value, ctx=ast.Load()), n)
+            return n
+    chain = []
+    for v in reversed(values):
+        it = Subst(v).visit(copy.deepcopy(lp.body[0]))
+        it.body = it.body[:1]
+        it.orelse = chain
+        chain = [it]
+    return [ast.fix_missing_locations(chain[0])] + body[1:], used
+
+
 def schematic_part(g):
     K = g.K
-    path, tree, funcs, tables, clss = schematic_module(g.src)
+    path, tree, funcs, tables, clss, extra = schematic_module(g.src)
     rel = 'SimpleSimulation/schematic.py'
     pre, sec = [], []
     # ---- element_handlers
@@ -1268,8 +1531,13 @@ def schematic_part(g):
         raise Unsupported(f'{where(f, path)}: apply_direction_and_length is not (element, direction=C, length=C, unit=C)')
     el, pd, pl, pu = (x.arg for x in a.args)
     body = body_without_docstring(f)
+    body, used_consts = unrolled_dispatch(body, extra['consts'], [el, pd, pl, pu], f, path)
+    for name in extra['consts']:
+        if name not in used_consts:
+            raise Unsupported(f'{path}: module-level constant {name} is not used by apply_direction_and_length')
     if not (len(body) == 2 and isinstance(body[0], ast.If) and isinstance(body[1], ast.Return) and dotted(body[1].value) == el):
-        raise Unsupported(f'{where(f, path)}: apply_direction_and_length is not an if/elif chain followed by `return element`')
+        raise Unsupported(f'{where(f, path)}: apply_direction_and_length is not an if/elif chain (or the loop form of it) followed by '
+                          '`return element`')
     drows = []
     st = body[0]
     while st is not None:
